@@ -116,6 +116,51 @@ CHECKS = {
         "Trusted: the renderer of the three program families; self-reference through a higher-order argument is a recorded known finding (KF-C11-self-ho-cycle).",
         "DESIGN.md 5/C11",
     ),
+    "C14": (
+        "exploration",
+        "enumerated grid (depth x accepted prefix / look-alike x number of accepted packages x import form x edit side x accept by "
+        "name or by module object) on real programs in fresh processes; oracle: signature changes iff the edited module is covered",
+        "Every grid point is rendered to a package tree, evaluated before and after an edit in fresh processes and the captured "
+        "signature compared; the thorough tier enumerates the whole grid.",
+        "Trusted: the CaptureStore wrapper; 'names the module' is judged on the message text.",
+        "DESIGN.md 5/C14",
+    ),
+    "C15": (
+        "exploration",
+        "Hypothesis-generated programs x stage prefixes (spellings) x stores x prior history; oracles: store traffic / directory diff "
+        "per stage and a metamorphic twin history without the restricted run",
+        "Each generated case is run twice (with and without the restricted evaluation); traffic through the Store interface, directory "
+        "snapshots, later values, signatures, served paths and execution logs are compared.",
+        "Trusted: the CaptureStore wrapper and the directory snapshot.",
+        "DESIGN.md 5/C15",
+    ),
+    "C16": (
+        "exploration",
+        "Hypothesis-generated local-store configurations (directory forms x cache option) x program x fixed multi-process history with "
+        "cwd changes and two data views; oracle: reference interpreter values, load round trips, no kept body runs on shared blobs",
+        "Each configuration is exercised by three real processes (cwd change, fresh process elsewhere, second data view, edit) and every "
+        "load / evaluation is compared with the model.",
+        "Trusted: the reference interpreter; relative directories are interpreted at set_store time.",
+        "DESIGN.md 5/C16",
+    ),
+    "C17": (
+        "exploration",
+        "Hypothesis-generated result values of every storable type x codec registration sequences (writer, in between, fresh reader) x "
+        "stores; oracle: round trip equality + type, codec-use log, verbatim file bytes",
+        "Each value travels through a kept data function, dds.load in the writing process, a second keep and dds.load in a fresh process "
+        "with generated codec registrations; text/bytes files are compared byte-for-byte.",
+        "Trusted: DataFrame.equals for frames; the fake dbutils for DBFS.",
+        "DESIGN.md 5/C17",
+    ),
+    "C19": (
+        "exploration",
+        "Hypothesis-generated commit-type spellings x operation sequences (keep, re-keep, load, reopen, legacy metadata rewrite, new data "
+        "view, one-shot copy failure) x value types against the fake dbutils; oracle: file tree per commit type, byte identity, records, values",
+        "After each step of each generated sequence the tree under the fake DBFS root is compared with what the commit type promises, "
+        "and keep / load values with the model.",
+        "Trusted: the in-process fake of dbutils.fs (documented semantics).",
+        "DESIGN.md 5/C19",
+    ),
 }
 
 NOT_YET = {}
